@@ -189,7 +189,7 @@ def worker(task: Tuple) -> Dict[str, Any]:
 
     ex = tracebmc.Extraction(cls, constructor_call(cname), (os.path.dirname(measured.__file__),))
     traces, codes = ex.all_traces()
-    tracebmc.annotate(traces, codes, atomic)
+    tracebmc.annotate(traces, codes, atomic, cls)
     res = tracebmc.search(traces, threads, timeout_ms=120000)
     res["class"] = cname
     res["table_type"] = type(cls._known).__name__
